@@ -34,6 +34,8 @@ def run(ctx):
     ctx.guard(rule_d, ctx, ix)
     ctx.guard(rule_e, ctx, ix)
     ctx.guard(rule_f, ctx, ix)
+    ctx.guard(rule_g, ctx, ix)
+    ctx.guard(rule_h, ctx, ix)
 
 
 def _concrete(f):
@@ -306,3 +308,119 @@ def rule_f(ctx, ix):
                        where=where(f, r))
     if n < 6:
         raise AnalysisError('C08.f: only %d pre-selection intervals recognised' % n)
+
+
+def rule_g(ctx, ix):
+    """The axis-aligned shortcuts of the rotated shapes are chosen by testing the rotation angle modulo a period.  The tests are
+    siblings (same interface slot in rectangle, ellipse, their bounds and rotate): an angle a rounding error away from a multiple
+    of the period must be treated alike by all of them, otherwise contains(), bounds() and to_polygon() of one shape disagree."""
+    import collections
+    import copy
+    R = 'C08.g'
+    ctx.describe(R, 'the angle-modulo-period tests that select the axis-aligned shortcuts agree with each other up to the period', floor=6)
+    mod = ix.module('glue.core.roi')
+    forms = collections.defaultdict(list)
+
+    class Norm(ast.NodeTransformer):
+        def visit_BinOp(self, n):
+            if isinstance(n.op, ast.Mod):
+                return ast.BinOp(left=ast.Name(id='ANGLE', ctx=ast.Load()), op=ast.Mod(), right=ast.Name(id='PERIOD', ctx=ast.Load()))
+            return self.generic_visit(n)
+    for fn in [n for n in ast.walk(mod.tree) if isinstance(n, ast.FunctionDef)]:
+        for t in [x.test for x in ast.walk(fn) if isinstance(x, (ast.If, ast.IfExp, ast.While))]:
+            for c in ast.walk(t):
+                # the comparison around `angle % period`: a call (np.isclose(...)) or a compare, with anything chained on it (.any())
+                if isinstance(c, (ast.Call, ast.Compare)) and any(isinstance(b, ast.BinOp) and isinstance(b.op, ast.Mod) and
+                                                                 ('theta' in unparse(b.left)) for b in ast.walk(c)):
+                    outer = c
+                    # take the outermost call/compare of the test that still contains the modulo, below boolean operators
+                    forms[unparse(Norm().visit(copy.deepcopy(outer)))].append((fn, c))
+    # keep the outermost form per site
+    sites = {}
+    for txt, lst in forms.items():
+        for fn, c in lst:
+            key = (fn.name, c.lineno)
+            if key not in sites or len(txt) > len(sites[key][0]):
+                sites[key] = (txt, fn, c)
+    by_form = collections.defaultdict(list)
+    for txt, fn, c in sites.values():
+        by_form[txt].append((fn, c))
+    if not sites:
+        raise AnalysisError('glue.core.roi: no angle-modulo-period tests found')
+    major = max(by_form, key=lambda k: len(by_form[k]))
+    for txt, lst in sorted(by_form.items()):
+        for fn, c in lst:
+            ctx.ob(R, 'glue.core.roi:%s `%s`' % (fn.name, norm(c)[:70]), 'the test has the form its siblings have: %s' % major, txt == major,
+                   detail='`%s` in %s tests the rotation angle as `%s`, while the %d sibling tests of this module use `%s`: an angle a '
+                          'rounding error away from a multiple of the period takes the axis-aligned shortcut in one place and the general '
+                          'path (or the other shortcut, with width and height exchanged) in another' % (norm(c), fn.name, txt, len(by_form[major]), major),
+                   where='%s:%d' % (mod.relpath, c.lineno))
+
+
+def rule_h(ctx, ix):
+    """Projected regions work in homogeneous coordinates: the screen position is (x/w, y/w).  The 2-d region must be asked about
+    the divided coordinates on every path - a path that skips the divide is right only for w == 1."""
+    from ..flow import Flow
+    R = 'C08.h'
+    ctx.describe(R, 'the projected region tests the homogeneous coordinates after the divide by w', floor=1)
+    c = ix.cls('glue.core.roi.Projected3dROI')
+    f = c.resolve_func('contains3d')
+    if f is None:
+        raise AnalysisError('Projected3dROI.contains3d vanished')
+
+    def classify(e, state):
+        if isinstance(e, ast.Name):
+            return {t for t in state.get(e.id, ()) if not t.startswith('<')}
+        if isinstance(e, ast.Call) and call_name(e) in ('tensordot', 'dot', 'matmul', 'einsum') and 'projection_matrix' in unparse(e):
+            return {'H'}
+        if isinstance(e, ast.BinOp) and isinstance(e.op, ast.MatMult) and 'projection_matrix' in unparse(e):
+            return {'H'}
+        if isinstance(e, ast.BinOp) and isinstance(e.op, (ast.Div,)):
+            l, r = classify(e.left, state), classify(e.right, state)
+            if l & {'H', 'Hxy'} and r & {'H', 'Hw'}:
+                return {'D'}
+            return l
+        if isinstance(e, ast.Subscript):
+            base = classify(e.value, state)
+            if 'H' in base:
+                sl = unparse(e.slice).replace(' ', '')
+                return {'Hw'} if sl in ('3', '-1') else {'Hxy'}
+            return base
+        if isinstance(e, (ast.Tuple, ast.List)):
+            out = set()
+            for x in e.elts:
+                out |= classify(x, state)
+            return out
+        if isinstance(e, ast.IfExp):
+            return classify(e.body, state) | classify(e.orelse, state)
+        if isinstance(e, ast.Call) and len(e.args) == 1 and call_name(e) in ('asarray', 'array', 'ascontiguousarray', 'copy'):
+            return classify(e.args[0], state)
+        return set()
+
+    def unpack(tags, i, n):
+        return set(tags)
+    sinks = []
+
+    def on_stmt(st, state):
+        exprs = [st.test] if isinstance(st, (ast.If, ast.While)) else ([st.iter] if isinstance(st, ast.For) else [st])
+        for e in exprs:
+            for x in ast.walk(e):
+                if isinstance(x, ast.Call) and call_name(x) == 'contains' and 'roi_2d' in unparse(x.func):
+                    sinks.append((x, dict(state)))
+    Flow(classify, on_stmt=on_stmt, unpack=unpack).run(f.node, {})
+    if not sinks:
+        raise AnalysisError('Projected3dROI.contains3d: the call of the 2-d region is not recognised')
+    for x, state in sinks:
+        tags = set()
+        for a in x.args:
+            tags |= classify(a, state)
+        undiv = bool(tags & {'H', 'Hxy'})
+        # a guard that looks at the whole last row (including its last element) could be a correct w == 1 test: not decided here
+        whole_row = any(('[3, 3]' in unparse(t.test) or '[3]' in unparse(t.test) or '[-1]' in unparse(t.test) or '[3, :]' in unparse(t.test))
+                        for t in ast.walk(f.node) if isinstance(t, (ast.If, ast.IfExp)))
+        ctx.idiom(R, f.construct, 'the 2-d region is asked about (x/w, y/w) on every path', accepted=tags == {'D'},
+                  absent=undiv and not whole_row,
+                  detail_absent='Projected3dROI.contains3d hands the homogeneous coordinates to the 2-d region without dividing by w on some '
+                                'path: for a projection matrix whose last row is (0, 0, 0, w) with w != 1 (a scaled orthographic matrix, '
+                                'zoom kept in w) other points are selected than the region contains on screen',
+                  shape='%s <- %s' % (norm(x), sorted(tags)), where=where(f, x))
